@@ -123,6 +123,9 @@ func simConfig(c *Config, trace bool) simrt.Config {
 		PStall:      c.PStall,
 		MaxSteps:    c.MaxSteps,
 	}
+	for _, w := range c.WallSteps {
+		sc.WallSteps = append(sc.WallSteps, simrt.WallStep{At: time.Duration(w[0]), Delta: time.Duration(w[1])})
+	}
 	for _, q := range c.Quanta {
 		sc.Quanta = append(sc.Quanta, time.Duration(q))
 	}
